@@ -32,7 +32,7 @@ Lemma cnt_max_sound : forall e kids, produces e kids -> forall sel, cnt_max sel 
 Proof.
   intros e kids P. induction P; intros sel H; cbn [cnt_max] in *; try (unfold count; cbn; lia).
   - unfold count. cbn [filter]. destruct (sel_has sel t); cbn; lia.
-  - rewrite count_app. rewrite (sat_add_small _ _ H) in *. specialize (IHP1 sel). specialize (IHP2 sel). lia.
+  - rewrite count_app. pose proof (sat_add_small _ _ H) as E. rewrite E in *. specialize (IHP1 sel). specialize (IHP2 sel). lia.
   - specialize (IHP sel). lia.
   - specialize (IHP sel). lia.
   - apply IHP. exact H.
